@@ -119,6 +119,21 @@ def gen_poolmix(seed, tier, o):
                          "wu": r.choice(["eager", "eager", "tiny", "late", "stream_first",
                                          "conn_first", "batched"]),
                          "interleave": r.choice(["random", "seq"])}
+            if r.random() < o.get("p_h2_events", 0.0):
+                # graceful shutdowns and stream resets while responses are open
+                evs = []
+                for _ in range(r.choice([1, 1, 2])):
+                    when = {"after_headers": r.randint(1, 4)}
+                    if r.random() < 0.5:
+                        when["delay"] = r.choice([0.001, 0.01, 0.05])
+                    if r.random() < 0.7:
+                        evs.append({"when": when, "do": "goaway",
+                                    "last": r.choice(["equal", "equal", "below", "above"]),
+                                    "close": r.random() < 0.5})
+                    else:
+                        evs.append({"when": when, "do": "rst", "nth": r.randint(0, 2),
+                                    "code": r.choice([0, 7, 8])})
+                cfg["h2"]["events"] = evs
         if r.random() < o.get("p_srv_idle_close", 0.0):
             cfg["keepalive_timeout"] = r.choice([0.01, 0.1, 1.0])
         eps[f"{h}:{443 if tls else 80}"] = cfg
